@@ -108,6 +108,9 @@ def declares (f : File) (n : Name) : Bool :=
 def declaresService (f : File) (n : Name) : Bool :=
   f.services.any (fun s => isName n (s.name.map (qual (pkg f))))
 
+/-- The full names of the services a file declares, in declaration order. -/
+def serviceNames (f : File) : List Name := f.services.filterMap (fun s => s.name.map (qual (pkg f)))
+
 /-! ### Well-named descriptors: every `name` the service reads is present -/
 
 def namesPresent (l : List (Option Name)) : Bool := l.all Option.isSome
@@ -141,5 +144,17 @@ def Unconflicted (fs : List File) (f : File) : Prop := ∀ g ∈ fs, g.name = f.
 
 instance (fs : List File) (f : File) : Decidable (Unconflicted fs f) := by
   unfold Unconflicted; exact inferInstance
+
+/-- `servedFrom earlier fs`: the files of `fs` that are the first of their name in
+`earlier ++ fs`, in order. -/
+def servedFrom (earlier : List File) : List File → List File
+  | [] => []
+  | f :: fs =>
+    if earlier.any (fun g => decide (g.name = f.name)) then servedFrom (earlier ++ [f]) fs
+    else f :: servedFrom (earlier ++ [f]) fs
+
+/-- First-registration-wins reading of duplicate file names: of several registered files with
+one name, the first (in the order the builder examines them) is the one served. -/
+def served (fs : List File) : List File := servedFrom [] fs
 
 end Spec.Reflection
